@@ -161,7 +161,7 @@ func (obj *SparseInt32Vector) APPEND(w *SparseInt32Vector) *SparseInt32Vector {
   return r
 }
 func (obj *SparseInt32Vector) ToSparseInt32Matrix(n, m int) *SparseInt32Matrix {
-  if n*m != obj.n {
+  if n < 0 || m < 0 || n*m != obj.n {
     panic("Matrix dimension does not fit input vector!")
   }
   v := NullSparseInt32Vector(obj.n)
